@@ -16,7 +16,7 @@ pkg=./$(echo $dest | sed 's:/$::')
 pat=$(python3 -c "
 import json,re
 m=json.load(open('$d/meta.json'))
-r=re.search(r'-run[ =]+[\x27\x22]?([^ \x27\x22]+)', m.get('demo_cmd',''))
+r=re.search(r'-run[ =]+[\x27\x22]?([A-Za-z0-9_|.^$]+)', m.get('demo_cmd',''))
 print(r.group(1) if r else 'Demo|C[0-9][0-9]')" 2>/dev/null)
 [ -z "$pat" ] && pat='Demo|C[0-9][0-9]'
 run_demo() { go test -vet=off -count=1 -timeout 300s -run "$pat" $pkg > $R/verify/$id-$n.demo.$1.log 2>&1; echo $?; }
